@@ -180,11 +180,12 @@ Section Bytes.
      did not, the result is an error and the file holds fewer bytes than were written before that
      point -- whatever the capacity and the call boundaries (so: a file that holds at least the
      bytes of [pre] comes with a mutated document) *)
-  Theorem save_path_with_residue mode ids pre post st s r file st' :
-    save_path_with wa cap mode ids pre post st None s = (r, file, st') ->
-    (st' = st /\ r <> WOk /\ (length file < length (concat pre))%nat) \/ st' = mutate mode ids st.
+  Theorem save_path_with_residue mode ids top pre post st s r file st' :
+    save_path_with wa cap mode ids top pre post st None s = (r, file, st') ->
+    (st' = raise_max_id top st /\ r <> WOk /\ (length file < length (concat pre))%nat) \/
+    st' = mutate mode ids (raise_max_id top st).
   Proof.
-    unfold save_path_with. destruct (run_cwb wa cap pre _) as [[r1 d1] c1] eqn:E1. destruct r1 as [|e1].
+    unfold save_path_with. cbv zeta. destruct (run_cwb wa cap pre _) as [[r1 d1] c1] eqn:E1. destruct r1 as [|e1].
     - destruct (run_cwb wa cap post c1) as [[r2 d2] c2]. destruct (finish_path wa r2 _ _) as [[rf f] sf].
       intro H; inversion H; subst. right. reflexivity.
     - cbn [finish_path]. destruct (bw_drop wa _) as [d2 s2] eqn:E2. intro H; inversion H; subst.
